@@ -347,6 +347,73 @@ impl<'a> VisitMut for Rules<'a> {
         syn::visit_mut::visit_block_mut(self, b);
     }
 
+    fn visit_expr_match_mut(&mut self, m: &mut syn::ExprMatch) {
+        if self.ctx.on("R2") {
+            // R2: a float literal pattern `K` -> binding `v` + guard `v == K` (float patterns match with ==); an or-pattern with
+            // such an alternative is split into consecutive arms with the same body (arm order kept)
+            fn has_float_lit(p: &syn::Pat) -> bool {
+                struct F(bool);
+                impl<'ast> syn::visit::Visit<'ast> for F {
+                    fn visit_expr_lit(&mut self, l: &'ast syn::ExprLit) {
+                        if matches!(l.lit, syn::Lit::Float(_)) { self.0 = true; }
+                    }
+                }
+                let mut f = F(false);
+                syn::visit::Visit::visit_pat(&mut f, p);
+                f.0
+            }
+            let mut arms: Vec<syn::Arm> = vec![];
+            for arm in m.arms.drain(..) {
+                match &arm.pat {
+                    syn::Pat::Or(o) if o.cases.iter().any(has_float_lit) => {
+                        for c in o.cases.iter() {
+                            let mut a = arm.clone();
+                            a.pat = c.clone();
+                            arms.push(a);
+                        }
+                    }
+                    _ => arms.push(arm),
+                }
+            }
+            for arm in arms.iter_mut() {
+                if has_float_lit(&arm.pat) {
+                    struct Rep<'b> { guards: Vec<syn::Expr>, k: &'b mut usize }
+                    impl<'b> VisitMut for Rep<'b> {
+                        fn visit_pat_mut(&mut self, p: &mut syn::Pat) {
+                            if let syn::Pat::Lit(l) = p {
+                                if let syn::Lit::Float(_) = &l.lit {
+                                    *self.k += 1;
+                                    let id = syn::Ident::new(&format!("vx_f{}", *self.k), proc_macro2::Span::call_site());
+                                    let lit = l.lit.clone();
+                                    self.guards.push(syn::parse_quote!(#id == #lit));
+                                    *p = syn::parse_quote!(#id);
+                                    return;
+                                }
+                            }
+                            syn::visit_mut::visit_pat_mut(self, p);
+                        }
+                    }
+                    let mut k = self.ctx.counter;
+                    let mut r = Rep { guards: vec![], k: &mut k };
+                    r.visit_pat_mut(&mut arm.pat);
+                    let guards = r.guards;
+                    self.ctx.counter = k;
+                    let mut cond: Option<syn::Expr> = None;
+                    for g in guards { cond = Some(match cond { None => g, Some(c) => syn::parse_quote!(#c && #g) }); }
+                    if let Some(c) = cond {
+                        arm.guard = Some(match arm.guard.take() {
+                            Some((i, g)) => (i, Box::new(syn::parse_quote!(#c && (#g)))),
+                            None => (Default::default(), Box::new(c)),
+                        });
+                    }
+                    self.ctx.used("R2");
+                }
+            }
+            m.arms = arms;
+        }
+        syn::visit_mut::visit_expr_match_mut(self, m);
+    }
+
     fn visit_generics_mut(&mut self, g: &mut syn::Generics) {
         // R23: trait bounds other than Copy / Clone / Sized are dropped (serde, Display, ... have no meaning for the verifier)
         if self.ctx.on("R23") {
@@ -372,6 +439,36 @@ impl<'a> VisitMut for Rules<'a> {
     }
 
     fn visit_expr_mut(&mut self, e: &mut syn::Expr) {
+        // R29: `matches!(E, P [if G])` -> `match E { P [if G] => true, _ => false }` (the macro's definition), so that the
+        // other rules see the pattern and the guard
+        if self.ctx.on("R29") || self.ctx.on("R10") {
+            if let syn::Expr::Macro(m) = e {
+                if m.mac.path.is_ident("matches") {
+                    struct MatchesArgs { e: syn::Expr, p: syn::Pat, g: Option<syn::Expr> }
+                    impl syn::parse::Parse for MatchesArgs {
+                        fn parse(input: syn::parse::ParseStream) -> syn::Result<Self> {
+                            let e: syn::Expr = input.parse()?;
+                            let _: syn::Token![,] = input.parse()?;
+                            let p = syn::Pat::parse_multi_with_leading_vert(input)?;
+                            let g = if input.peek(syn::Token![if]) { let _: syn::Token![if] = input.parse()?; Some(input.parse()?) } else { None };
+                            let _ = input.parse::<Option<syn::Token![,]>>();
+                            Ok(MatchesArgs { e, p, g })
+                        }
+                    }
+                    if let Ok(a) = syn::parse2::<MatchesArgs>(m.mac.tokens.clone()) {
+                        let (ex, p) = (a.e, a.p);
+                        let new: syn::Expr = match a.g {
+                            Some(g) => syn::parse_quote!(match #ex { #p if #g => true, _ => false }),
+                            None => syn::parse_quote!(match #ex { #p => true, _ => false }),
+                        };
+                        *e = new;
+                        self.ctx.used("R29");
+                        syn::visit_mut::visit_expr_mut(self, e);
+                        return;
+                    }
+                }
+            }
+        }
         // R28: `E.map_err(|e| BODY)?`  ->  `match E { Ok(v) => v, Err(e) => return Err(BODY) }`
         // (the function's error type is the closure's result type, so `?` converts with the identity From)
         if self.ctx.on("R28") {
